@@ -1,20 +1,227 @@
 package props
 
 import (
+	"bytes"
+	"fmt"
 	"time"
 
+	"github.com/cosmos/cosmos-sdk/types/query"
+
+	ophosttypes "github.com/initia-labs/OPinit/x/ophost/types"
+
 	"verifharness/mon"
+	"verifharness/ref"
 	"verifharness/sim"
 )
+
+// ---- bounded-exhaustive part: every sequence of length <= depth over a small alphabet, against a sequential model ----
+
+type c11Entry struct {
+	l2     uint64
+	root   [32]byte
+	at     time.Time
+	height int64
+}
+
+type c11Node struct {
+	l1   *sim.L1
+	log  []c11Entry // model of bridge 1's stored outputs, index i+1
+	path []string
+}
+
+type c11DFS struct {
+	run      *mon.Run
+	period   time.Duration
+	proposer sim.Account
+	chall    sim.Account
+	stranger sim.Account
+	visited  map[string]struct{}
+	nodes    int
+	other    string // rendering of bridge 2's log, must never change
+}
+
+func c11Root(idx, l2 uint64, alt int) [32]byte {
+	return ref.Sha3_256([]byte(fmt.Sprintf("c11/%d/%d/%d", idx, l2, alt)))
+}
+
+func (d *c11DFS) final(n *c11Node, e c11Entry) bool {
+	return n.l1.Time().Unix() >= e.at.Add(d.period).Unix()
+}
+
+func c11ReadLog(l1 *sim.L1, bridge uint64) (idx []uint64, out []ophosttypes.Output) {
+	var key []byte
+	for {
+		res, err := l1.Q.OutputProposals(l1.Ctx, &ophosttypes.QueryOutputProposalsRequest{BridgeId: bridge, Pagination: &query.PageRequest{Key: key, Limit: 2}})
+		if err != nil {
+			panic(err)
+		}
+		for _, o := range res.OutputProposals {
+			idx = append(idx, o.OutputIndex)
+			out = append(out, o.OutputProposal)
+		}
+		if res.Pagination == nil || len(res.Pagination.NextKey) == 0 {
+			return
+		}
+		key = res.Pagination.NextKey
+	}
+}
+
+// monitor compares everything observable about bridge 1's log with the model.
+func (d *c11DFS) monitor(n *c11Node) {
+	run := d.run
+	idx, outs := c11ReadLog(n.l1, 1)
+	ok := len(idx) == len(n.log)
+	for i := 0; ok && i < len(idx); i++ {
+		e := n.log[i]
+		ok = idx[i] == uint64(i+1) && outs[i].L2BlockNumber == e.l2 && bytes.Equal(outs[i].OutputRoot, e.root[:]) && outs[i].L1BlockTime.Equal(e.at) && outs[i].L1BlockNumber == uint64(e.height)
+	}
+	run.Check("C11.exhaustive.log_equals_model", ok, "c11.dfs.log", n.path, "stored log (indices %v) differs from the sequential model (%d entries)", idx, len(n.log))
+	next, err := n.l1.K.GetNextOutputIndex(n.l1.Ctx, 1)
+	run.Check("C11.exhaustive.next_index", err == nil && next == uint64(len(n.log)+1), "c11.dfs.next", n.path, "next output index is %d with %d stored outputs", next, len(n.log))
+	for i := range n.log {
+		q, err := n.l1.Q.OutputProposal(n.l1.Ctx, &ophosttypes.QueryOutputProposalRequest{BridgeId: 1, OutputIndex: uint64(i + 1)})
+		run.Check("C11.exhaustive.log_equals_model", err == nil && bytes.Equal(q.OutputProposal.OutputRoot, n.log[i].root[:]) && q.OutputProposal.L2BlockNumber == n.log[i].l2, "c11.dfs.single_query", n.path, "Query/OutputProposal(1,%d) disagrees with the model", i+1)
+	}
+	_, err = n.l1.Q.OutputProposal(n.l1.Ctx, &ophosttypes.QueryOutputProposalRequest{BridgeId: 1, OutputIndex: uint64(len(n.log) + 1)})
+	run.Check("C11.exhaustive.log_equals_model", err != nil, "c11.dfs.ghost_at_next", n.path, "an output is stored at the next index %d", len(n.log)+1)
+	// final outputs form a prefix, and the last finalized output is the end of that prefix
+	lastFinal := 0
+	prefix := true
+	for i, e := range n.log {
+		if d.final(n, e) {
+			if lastFinal != i {
+				prefix = false
+			}
+			lastFinal = i + 1
+		}
+	}
+	run.Check("C11.exhaustive.final_prefix", prefix, "c11.dfs.final_prefix", n.path, "final outputs do not form a prefix of the log")
+	lf, err := n.l1.Q.LastFinalizedOutput(n.l1.Ctx, &ophosttypes.QueryLastFinalizedOutputRequest{BridgeId: 1})
+	run.Check("C11.exhaustive.last_finalized_query", err == nil && lf.OutputIndex == uint64(lastFinal), "c11.dfs.last_finalized", n.path, "Query/LastFinalizedOutput = %v, model says %d", lf, lastFinal)
+	// the other bridge is untouched
+	i2, o2 := c11ReadLog(n.l1, 2)
+	run.Check("C11.exhaustive.other_bridge_untouched", fmt.Sprint(i2, o2) == d.other, "c11.dfs.other_bridge", n.path, "bridge 2's log changed")
+}
+
+func (d *c11DFS) fork(n *c11Node, step string) *c11Node {
+	return &c11Node{l1: n.l1.Branch(), log: append([]c11Entry(nil), n.log...), path: append(append([]string(nil), n.path...), step)}
+}
+
+func (d *c11DFS) explore(n *c11Node, depth int) {
+	if d.run.TooMany() {
+		return
+	}
+	key := fmt.Sprintf("%s|%d|%d|%d", sim.Digest(n.l1.Dump(ophosttypes.StoreKey)), n.l1.Time().UnixNano(), n.l1.Ctx.BlockHeight(), depth)
+	if _, seen := d.visited[key]; seen {
+		return
+	}
+	d.visited[key] = struct{}{}
+	d.nodes++
+	d.run.State(key[:48])
+	d.monitor(n)
+	if depth == 0 {
+		return
+	}
+	run := d.run
+	next := uint64(len(n.log) + 1)
+	var last uint64
+	if len(n.log) > 0 {
+		last = n.log[len(n.log)-1].l2
+	}
+	// propose: index in {next-1, next, next+1} x L2 block in {last-1, last, last+1, last+7} x two roots x signer
+	for _, idx := range []uint64{next - 1, next, next + 1} {
+		for _, l2 := range []uint64{last - 1, last, last + 1, last + 7} {
+			if last == 0 && l2 > last+7 {
+				continue // wrapped
+			}
+			for alt := 0; alt < 2; alt++ {
+				for _, who := range []sim.Account{d.proposer, d.chall} {
+					if who.Name == d.chall.Name && (alt == 1 || idx != next) {
+						continue
+					}
+					root := c11Root(idx, l2, alt)
+					if idx >= 1 && idx <= uint64(len(n.log)) && alt == 0 && l2 == n.log[idx-1].l2 {
+						root = n.log[idx-1].root // byte-identical re-submission of what is stored there
+					}
+					c := d.fork(n, "")
+					res := c.l1.Deliver(ophosttypes.NewMsgProposeOutput(who.String(), 1, idx, l2, root[:]))
+					run.Evaluations++
+					expect := who.Name == d.proposer.Name && idx == next && (len(n.log) == 0 || l2 > last)
+					c.path[len(c.path)-1] = fmt.Sprintf("propose(idx=%d l2=%d root=%x.. by=%s) -> %s [next=%d last_l2=%d]", idx, l2, root[:3], who.Name, res.Class, next, last)
+					if !run.Check("C11.exhaustive.propose_decision", (res.Class == sim.OK) == expect, "c11.dfs.propose_decision", c.path, "proposal decision differs from the model (expected accept=%v): %s", expect, res.ErrString()) {
+						continue
+					}
+					if res.Class == sim.OK {
+						c.log = append(c.log, c11Entry{l2, root, c.l1.Time(), c.l1.Ctx.BlockHeight()})
+						run.Distinct(fmt.Sprintf("C11/dfs/propose/len%d", len(n.log)))
+					}
+					d.explore(c, depth-1)
+				}
+			}
+		}
+	}
+	// delete index i in 0..next (next itself and 0 are out of range)
+	for i := uint64(0); i <= next; i++ {
+		for _, who := range []sim.Account{d.chall, d.stranger} {
+			if who.Name == d.stranger.Name && i != 1 {
+				continue
+			}
+			c := d.fork(n, "")
+			res := c.l1.Deliver(ophosttypes.NewMsgDeleteOutput(who.String(), 1, i))
+			run.Evaluations++
+			expect := who.Name == d.chall.Name && i >= 1 && i < next
+			if expect {
+				for _, e := range n.log[i-1:] {
+					if d.final(n, e) {
+						expect = false
+					}
+				}
+			}
+			c.path[len(c.path)-1] = fmt.Sprintf("delete(%d by=%s) -> %s [next=%d]", i, who.Name, res.Class, next)
+			if !run.Check("C11.exhaustive.delete_decision", (res.Class == sim.OK) == expect, "c11.dfs.delete_decision", c.path, "deletion decision differs from the model (expected accept=%v): %s", expect, res.ErrString()) {
+				continue
+			}
+			if res.Class == sim.OK {
+				c.log = c.log[:i-1]
+				run.Distinct(fmt.Sprintf("C11/dfs/delete/%d of %d", i, len(n.log)))
+			}
+			d.explore(c, depth-1)
+		}
+	}
+	for _, dt := range []time.Duration{0, time.Second, d.period - time.Second, d.period} {
+		c := d.fork(n, fmt.Sprintf("next block +%s", dt))
+		c.l1.NextBlock(dt)
+		d.explore(c, depth-1)
+	}
+}
+
+func c11Exhaustive(run *mon.Run, depth int) {
+	for _, c := range []string{"C11.exhaustive.log_equals_model", "C11.exhaustive.next_index", "C11.exhaustive.final_prefix", "C11.exhaustive.last_finalized_query", "C11.exhaustive.propose_decision", "C11.exhaustive.delete_decision", "C11.exhaustive.other_bridge_untouched"} {
+		run.Declare(c, 50)
+	}
+	period := 3 * time.Second
+	env := newL1EnvAt(2, []time.Duration{period, period}, time.Unix(1_700_000_000, 0).UTC())
+	r2 := c11Root(1, 5, 9)
+	if res := env.L1.Deliver(ophosttypes.NewMsgProposeOutput(env.Bridges[2].Proposer.String(), 2, 1, 5, r2[:])); res.Class != sim.OK {
+		panic(res.ErrString())
+	}
+	d := &c11DFS{run: run, period: period, proposer: env.Bridges[1].Proposer, chall: env.Bridges[1].Challenger, stranger: env.Users[3], visited: map[string]struct{}{}}
+	i2, o2 := c11ReadLog(env.L1, 2)
+	d.other = fmt.Sprint(i2, o2)
+	d.explore(&c11Node{l1: env.L1}, depth)
+	run.Extra["exhaustive_depth"] = depth
+	run.Extra["exhaustive_nodes"] = d.nodes
+}
 
 func init() { register("C11", "exploration", checkC11) }
 
 func checkC11(run *mon.Run, rng *mon.Rand, thorough bool) {
-	run.Rule = "seeded random histories of propose / delete / re-propose with indices in {next-1,next,next+1}, L2 blocks around the last one, all roles, over 2-3 bridges with different periods and boundary-aligned block times; the structural invariant of the stored log is read through the paginated query after every step. Distinct non-trivial = (operation, log length, final-prefix length / deletion index) pairs"
+	run.Rule = "(a) bounded-exhaustive: every operation sequence up to depth 5 (quick) / 7 (thorough) over {propose at next-1/next/next+1 with L2 block last-1/last/last+1/last+7, fresh or byte-identical root, by proposer or challenger; delete 0..next by challenger or a stranger; next block +0/+1s/+period-1s/+period} on copy-on-write branches with state-digest memoisation, every accept/reject decision and the complete observable log (paginated list, single queries, next index, last finalized output) compared with a sequential model after every step; (b) seeded random histories of propose / delete / re-propose with indices in {next-1,next,next+1}, L2 blocks around the last one, all roles, over 2-3 bridges with different periods and boundary-aligned block times; the structural invariant of the stored log is read through the paginated query after every step. Distinct non-trivial = (operation, log length, final-prefix length / deletion index) pairs"
 	run.Assumptions = []string{"the output log is observed only through Query/OutputProposals (all pages), Query/LastFinalizedOutput and GetNextOutputIndex"}
 	for _, c := range []string{"C11.contiguous", "C11.l2_blocks_increase", "C11.l1_times_monotone", "C11.log_matches_model", "C11.final_prefix", "C11.propose_only_at_next", "C11.propose_higher_l2_block", "C11.delete_sets_next"} {
 		run.Declare(c, 10)
 	}
+	c11Exhaustive(run, pick(thorough, 5, 7))
 	hist := pick(thorough, 24, 300)
 	steps := pick(thorough, 250, 500)
 	for h := 0; h < hist && !run.TooMany(); h++ {
